@@ -6,6 +6,7 @@ import (
 	"fmt"
 	"go/token"
 	"go/types"
+	"sort"
 	"strings"
 
 	"golang.org/x/tools/go/ssa"
@@ -336,21 +337,50 @@ func c07Marshal(c *Ctx) {
 	key := func(s string) string { return "dhcpv4.Options.Marshal: " + s }
 	gc := newGuardCache(c)
 	n := 0
-	allInstrs(f, func(in ssa.Instruction) {
-		cl, ok := in.(*ssa.Call)
-		if !ok || cl.Call.StaticCallee() == nil || !strings.HasSuffix(funcKey(cl.Call.StaticCallee()), "uio.Lexer).Write8") {
-			return
-		}
-		n++
-		var fs []string
-		for _, x := range gc.of(cl.Block()) {
-			fs = append(fs, x.str)
-		}
-		all := strings.Join(fs, " ∧ ")
-		no0 := strings.Contains(all, "bin[==](const(0),conv[uint8](") && strings.Contains(all, "=false")
-		no255 := strings.Contains(all, "bin[==](const(255),conv[uint8](")
-		r.Check(no0 && no255, "C07-K3", key(fmt.Sprintf("write #%d happens only for codes other than 0 and 255", n)), c.P.ipos(cl), "guard set contains code != 0 and code != 255", "an option instance can be written for Pad or End: guards "+all)
-	})
+	for _, g := range marshalHelpers(c, f) {
+		g := g
+		allInstrs(g, func(in ssa.Instruction) {
+			cl, ok := in.(*ssa.Call)
+			if !ok || cl.Call.StaticCallee() == nil || !strings.HasSuffix(funcKey(cl.Call.StaticCallee()), "uio.Lexer).Write8") {
+				return
+			}
+			n++
+			var fs []string
+			for _, x := range gc.of(cl.Block()) {
+				fs = append(fs, x.str)
+			}
+			if g != f {
+				// a write in a helper: the guards of every call site of that helper in Marshal hold as well
+				var common map[string]bool
+				allInstrs(f, func(i2 ssa.Instruction) {
+					if c2, ok := i2.(*ssa.Call); ok && c2.Call.StaticCallee() == g {
+						cur := map[string]bool{}
+						for _, x := range gc.of(c2.Block()) {
+							// the code is passed as an argument: express facts about it in the caller's terms
+							cur[x.str] = true
+						}
+						if common == nil {
+							common = cur
+						} else {
+							for k := range common {
+								if !cur[k] {
+									delete(common, k)
+								}
+							}
+						}
+					}
+				})
+				for k := range common {
+					fs = append(fs, k)
+				}
+			}
+			sort.Strings(fs)
+			all := strings.Join(fs, " ∧ ")
+			no0 := strings.Contains(all, "bin[==](const(0),conv[uint8](") && strings.Contains(all, "=false")
+			no255 := strings.Contains(all, "bin[==](const(255),conv[uint8](")
+			r.Check(no0 && no255, "C07-K3", key(fmt.Sprintf("write #%d happens only for codes other than 0 and 255", n)), c.P.ipos(cl), "guard set contains code != 0 and code != 255", "an option instance can be written for Pad or End: guards "+all)
+		})
+	}
 	r.Check(n >= 4, "C07-K3", key("instance writes found"), c.P.pos(f.Pos()), "instance count", fmt.Sprintf("%d Write8 calls", n))
 	// it iterates sortedKeys()
 	okIter := false
